@@ -155,18 +155,34 @@ def fresh_shared(case):
             "trusted": (None if not case.get("trusted") else (set(map(tuple, case["trusted"][1])) if case["trusted"][0] == "set" else [tuple(e) for e in case["trusted"][1]]))}
 
 
+def _time_limited(m, kw, dt):
+    lim = (kw.get("solver_options") or {}).get("time_limit")
+    st = None
+    try:
+        st = m.solver.get_model_status() if getattr(m, "solver", None) is not None else None
+    except BaseException:
+        pass
+    return st == "kTimeLimit" or bool(lim and dt >= 0.5 * lim)
+
+
 def outcome(cls, G, kw, idem, viol, obs, tag):
     """construct + solve + getters (+ repeated calls). returns comparable summary"""
     r = M.safe_call(getattr(fp, cls), G, **kw)
     if r[0] != "ok":
         return ("ctor-" + r[1],)
     m = r[1]
-    s = M.safe_call(m.solve)
+    import time as _t0
+    t00_ = _t0.perf_counter(); s = M.safe_call(m.solve); dt0_ = _t0.perf_counter() - t00_
     if s[0] != "ok":
         return ("solve-" + s[1],)
     solved = M.safe_call(m.is_solved)
     solved = bool(solved[1]) if solved[0] == "ok" else False
     if not solved:
+        if _time_limited(m, kw, dt0_):
+            # the run used up the solver's time limit (heavy-tailed MILP, loaded machine): 'not solved' is the correct report for THAT run and
+            # says nothing about what another run of the same construction reports
+            obs["c18.history_step_time_limited"] += 1
+            return ("time-limited",)
         return ("unsolved",)
     g1 = M.safe_call(m.get_solution); o1 = M.safe_call(m.get_objective_value)
     nroutes = None
@@ -499,11 +515,12 @@ def _run_case(case):
         obs["c18.user_subclass_probe_failed"] += 1
     if pending is not None:
         pcls, pm = pending
-        s_ = M.safe_call(pm.solve)
+        import time as _t1
+        t01_ = _t1.perf_counter(); s_ = M.safe_call(pm.solve); dt1_ = _t1.perf_counter() - t01_
         if s_[0] != "ok":
             pres = ("solve-" + s_[1],)
         elif not pm.is_solved():
-            pres = ("unsolved",)
+            pres = ("time-limited",) if _time_limited(pm, {"solver_options": shared["so"]}, dt1_) else ("unsolved",)
         else:
             g1 = M.safe_call(pm.get_solution); o1 = M.safe_call(pm.get_objective_value)
             nroutes = len(models.routes_of(g1[1])) if g1[0] == "ok" and isinstance(g1[1], dict) and models.routes_of(g1[1]) is not None else None
@@ -515,7 +532,9 @@ def _run_case(case):
         kw = build_args(cls, case, fs, ks[i])
         iso = outcome(cls, fs["G"], kw, False, viol, obs, "")
         obs["c18.isolation_pairs"] += 1
-        if iso != hist[i]:
+        if "time-limited" in (iso[0], (hist[i] or ("",))[0]):
+            obs["c18.isolation_pairs_without_verdict_time_limit"] += 1
+        elif iso != hist[i]:
             viol.append({"sig": f"C18/result-depends-on-history/{cls}" + ("/default-args" if case["dflt"] else "") + ("/constructed-first-solved-last" if (pending is not None and i == 0) else ("/while-another-model-is-pending" if pending is not None else "")),
                          "msg": f"step {i} ({cls}, k={ks[i]}) in the history gives {hist[i]} but {iso} in isolation; steps {case['steps']}" + (" (step 0 constructed first, solved last)" if pending is not None else "") + f"; {desc}"})
     seen = set(); out = []
